@@ -267,6 +267,12 @@ def rule_echo(ck, consts):
     hm = ck.func(W, P13 + "._handle_message")
     ps = [p for p in hm.params() if p != "self"]
     data = ps[1]
+    # locals that hold the payload: the parameter and names bound from expressions over it (e.g. after inlining a helper)
+    dnames = {data}
+    for _ in range(4):
+        for x_ in q.walk_body(hm.node):
+            if isinstance(x_, ast.Assign) and any(isinstance(y_, ast.Name) and y_.id in dnames for y_ in ast.walk(x_.value)) and (isinstance(x_.value, ast.Name) or (isinstance(x_.value, ast.Call) and q.call_attr(x_.value) == "decompress")):
+                dnames |= {t_.id for t_ in x_.targets if isinstance(t_, ast.Name)}
     closes = hm.cfg.find(lambda x: q.is_call(x, "self.close"))
 
     def ut(n, u, env):
@@ -303,7 +309,7 @@ def rule_echo(ck, consts):
         if "self.close_code" in ap:
             n_code += 1
             ok = isinstance(v, ast.Subscript) and isinstance(v.slice, ast.Constant) and v.slice.value == 0 and q.is_call(v.value, "struct.unpack") and len(v.value.args) == 2 \
-                and isinstance(v.value.args[0], ast.Constant) and v.value.args[0].value in (">H", "!H") and q.unparse(v.value.args[1]) == "%s[:2]" % data
+                and isinstance(v.value.args[0], ast.Constant) and v.value.args[0].value in (">H", "!H") and q.unparse(v.value.args[1]) in {"%s[:2]" % d_ for d_ in dnames}
             if not ok:
                 un = v.value if isinstance(v, ast.Subscript) else v
                 recognised = q.is_call(un, "struct.unpack") and len(un.args) == 2 and isinstance(un.args[0], ast.Constant)
@@ -313,7 +319,7 @@ def rule_echo(ck, consts):
             ck.ob(R, hm, node.ast, X.reached(seen8, node), "the close code is parsed on the opcode-8 path", construct="code parsed on close path")
         if "self.close_reason" in ap:
             n_reason += 1
-            ok = isinstance(v, ast.Call) and v.args and q.unparse(v.args[0] if not isinstance(v.func, ast.Attribute) or v.func.attr != "decode" else v.func.value) == "%s[2:]" % data
+            ok = isinstance(v, ast.Call) and v.args and q.unparse(v.args[0] if not isinstance(v.func, ast.Attribute) or v.func.attr != "decode" else v.func.value) in {"%s[2:]" % d_ for d_ in dnames}
             ck.ob(R, hm, node.ast, ok, "close reason = payload after the two code bytes")
     ck.floor(R, n_code, 1, "close_code assignments")
     ck.floor(R, n_reason, 1, "close_reason assignments")
@@ -330,9 +336,10 @@ def rule_echo(ck, consts):
             except SyntaxError:
                 continue
             e = expand_expr(ck.repo, hm, e)
-            if data in q.names_in(e) and q.names_in(e) <= {data, "len", "bool"}:
+            used = q.names_in(e) & dnames
+            if len(used) == 1 and q.names_in(e) <= (used | {"len", "bool"}):
                 try:
-                    lens = {k for k in lens if bool(X.xfold(e, {data: "x" * k})) == pol}
+                    lens = {k for k in lens if bool(X.xfold(e, {next(iter(used)): "x" * k})) == pol}
                 except q.NotFoldable:
                     raise AnalysisError("_handle_message: guard %s on the close payload does not fold" % txt)
         want = {2, 3, 4, 5, 6} if which == "code" else {3, 4, 5, 6}
@@ -617,7 +624,18 @@ def rule_is_closing(ck):
                 return ast.Call(func=ast.Name(id="bool", ctx=ast.Load()), args=[ast.BoolOp(op=ast.Or() if node.func.id == "any" else ast.And(), values=list(node.args[0].elts))], keywords=[])
             return node
 
-    e = T().visit(copy.deepcopy(rets[0].value))
+    rv = copy.deepcopy(rets[0].value)
+    for _ in range(4):  # locals bound once (e.g. an argument of an inlined helper) stand for their definition
+        class S_(ast.NodeTransformer):
+            def visit_Name(self, node):
+                if isinstance(node.ctx, ast.Load):
+                    sts_ = q.stores_to(ic.node, node.id)
+                    if len(sts_) == 1 and isinstance(sts_[0], ast.Assign) and node.id not in ic.params():
+                        return copy.deepcopy(sts_[0].value)
+                return node
+
+        rv = S_().visit(rv)
+    e = T().visit(rv)
     bad = []
     for sc in (False, True):
         for ct in (False, True):
